@@ -253,6 +253,8 @@ type vWorld struct {
 	pre      *vURL // nil: not configured
 	dcr      bool
 	init     bool
+	nts      bool // configuration: NewTokenSource is set (its source wraps the default one)
+	ntFail   bool // this round: NewTokenSource returns an error
 	u        vURL
 	hm       bool
 	ch       []vChallenge
@@ -377,18 +379,22 @@ func (w *vWorld) encode() string {
 	if w.fetch == "R" {
 		f = "R|" + w.fState + "|" + w.fIss.tok()
 	}
+	nt := "S"
+	if w.ntFail {
+		nt = "E"
+	}
 	if w.again {
 		kw := "again"
 		if w.begin {
 			kw = "begin"
 		}
-		return fmt.Sprintf(kw+" st=%d u=%s hm=%s ch=%s hdr=%s prm=%s asm=%s reg=%s tok=%s f=%s sty=%d",
+		return fmt.Sprintf(kw+" st=%d u=%s hm=%s ch=%s hdr=%s prm=%s asm=%s reg=%s tok=%s f=%s sty=%d nt=%s",
 			w.status, w.u.tok(), bit(w.hm), ch, hdr,
-			w.encodeMap("prm", w.prm), w.encodeMap("asm", w.asm), w.encodeMap("reg", w.reg), tok, f, w.sty)
+			w.encodeMap("prm", w.prm), w.encodeMap("asm", w.asm), w.encodeMap("reg", w.reg), tok, f, w.sty, nt)
 	}
-	return fmt.Sprintf("auth st=%d cimd=%s pre=%s dcr=%s init=%s u=%s hm=%s ch=%s hdr=%s prm=%s asm=%s reg=%s tok=%s f=%s sty=%d",
+	return fmt.Sprintf("auth st=%d cimd=%s pre=%s dcr=%s init=%s u=%s hm=%s ch=%s hdr=%s prm=%s asm=%s reg=%s tok=%s f=%s sty=%d nts=%s nt=%s",
 		w.status, bit(w.cimd), pre, bit(w.dcr), bit(w.init), w.u.tok(), bit(w.hm), ch, hdr,
-		w.encodeMap("prm", w.prm), w.encodeMap("asm", w.asm), w.encodeMap("reg", w.reg), tok, f, w.sty)
+		w.encodeMap("prm", w.prm), w.encodeMap("asm", w.asm), w.encodeMap("reg", w.reg), tok, f, w.sty, bit(w.nts), nt)
 }
 
 func decodeResp(kind, s string) (vResp, error) {
@@ -444,6 +450,7 @@ func decodeWorld(op string) (*vWorld, error) {
 	w.begin = toks[0] == "begin"
 	w.status, _ = strconv.Atoi(kv["st"])
 	w.cimd, w.dcr, w.init, w.hm = kv["cimd"] == "1", kv["dcr"] == "1", kv["init"] == "1", kv["hm"] == "1"
+	w.nts, w.ntFail = kv["nts"] == "1", kv["nt"] == "E"
 	if !w.again && kv["pre"] != "none" {
 		p, err := vParse(kv["pre"])
 		if err != nil {
@@ -967,6 +974,8 @@ func classifyErr(err error) string {
 		return "iss-unexpected"
 	case has("token exchange failed"):
 		return "exch"
+	case errors.Is(err, vNtsErr) && has("constructing token source failed"):
+		return "ts-err"
 	case has("token expired and refresh token is not set"):
 		return "post"
 	}
@@ -983,6 +992,7 @@ type vHandler struct {
 	att       []*vAttempt // every Authorize call of the case, in start order
 	installed []vInstalled
 	cur       *vRun
+	finishing *vAttempt // the attempt whose Authorize call is running right now (one at a time)
 	lastAS    string // the authorization server the last round that reached one asked for metadata
 }
 
@@ -1011,6 +1021,22 @@ type vAttempt struct {
 }
 
 type vAttKey struct{}
+
+var vNtsErr = errors.New("scripted NewTokenSource error")
+
+// vWrappedTS is what the configured NewTokenSource returns: the default source, wrapped.
+type vWrappedTS struct{ oauth2.TokenSource }
+
+// newTokenSource is the configured constructor. It is called with a context derived from
+// context.Background() (not the attempt's), so it answers for the attempt that is finishing.
+func (hs *vHandler) newTokenSource(ctx context.Context, cfg *oauth2.Config, tok *oauth2.Token) (oauth2.TokenSource, error) {
+	if a := hs.finishing; a != nil {
+		if a.w.ntFail {
+			return nil, vNtsErr
+		}
+	}
+	return &vWrappedTS{cfg.TokenSource(ctx, tok)}, nil
+}
 
 // contactedAS returns the token of the authorization-server URL whose metadata locations the
 // observation's log asks for ("" if the round did not get that far).
@@ -1091,6 +1117,9 @@ func newHandler(w *vWorld) (hs *vHandler, obs string) {
 		cfg.DynamicClientRegistrationConfig = &DynamicClientRegistrationConfig{Metadata: &oauthex.ClientRegistrationMetadata{
 			RedirectURIs: []string{"http://localhost:7777/callback"}, ClientName: "verif"}}
 	}
+	if w.nts {
+		cfg.NewTokenSource = hs.newTokenSource
+	}
 	if w.init {
 		hs.initial = vSentinelTS{}
 		cfg.InitialTokenSource = hs.initial
@@ -1108,7 +1137,7 @@ func newHandler(w *vWorld) (hs *vHandler, obs string) {
 func (hs *vHandler) begin(w *vWorld) (a *vAttempt, obs string) {
 	if w.again {
 		c := hs.cfgW
-		w.cimd, w.pre, w.dcr, w.init = c.cimd, c.pre, c.dcr, c.init
+		w.cimd, w.pre, w.dcr, w.init, w.nts = c.cimd, c.pre, c.dcr, c.init, c.nts
 	}
 	w.round = len(hs.att)
 	r := &vRun{w: w, upper: w.sty%5 == 1} // mixed-case schemes only in fields that are not compared as strings
@@ -1129,6 +1158,7 @@ func (hs *vHandler) begin(w *vWorld) (a *vAttempt, obs string) {
 	}
 	a.before, _ = hs.h.TokenSource(context.Background())
 	resp := &http.Response{StatusCode: w.status, Header: hd, Body: io.NopCloser(strings.NewReader("")), Request: req}
+	hs.finishing = a
 	go func() {
 		defer close(a.done)
 		defer func() {
@@ -1192,6 +1222,7 @@ func (hs *vHandler) end(k int) (a *vAttempt, obs string) {
 	}
 	if a.isParked {
 		a.before, _ = hs.h.TokenSource(context.Background())
+		hs.finishing = a
 		close(a.release)
 		<-a.done
 	}
@@ -1417,7 +1448,7 @@ func (g *vGen) world() *vWorld {
 	cfgDraw := g.rng.Intn(10)
 	if g.base != nil {
 		cfgDraw = -1
-		w.cimd, w.pre, w.dcr, w.init = g.base.cimd, g.base.pre, g.base.dcr, g.base.init
+		w.cimd, w.pre, w.dcr, w.init, w.nts = g.base.cimd, g.base.pre, g.base.dcr, g.base.init, g.base.nts
 	}
 	switch cfgDraw {
 	case -1:
@@ -1438,6 +1469,7 @@ func (g *vGen) world() *vWorld {
 	}
 	if g.base == nil {
 		w.init = g.p(30)
+		w.nts = g.p(25)
 	}
 	// the MCP server URL
 	switch {
@@ -1819,6 +1851,12 @@ func flowTags(w *vWorld, obs string) []string {
 	if w.init {
 		tags = append(tags, "initial-ts")
 	}
+	if w.nts {
+		tags = append(tags, "custom-token-source")
+		if w.ntFail && strings.Contains(obs, "T:") {
+			tags = append(tags, "constructor-error-after-exchange")
+		}
+	}
 	switch {
 	case w.round == 1:
 		tags = append(tags, "round=2")
@@ -2022,6 +2060,7 @@ func TestVerifOAuthFlow(t *testing.T) {
 			g.honest = (rounds > 1 && g.p(map[bool]int{true: 65, false: 50}[k == 0])) || (conc > 0 && g.p(60))
 			w := g.world()
 			w.again = k > 0
+			w.ntFail = w.nts && g.hp(30, 12)
 			w.begin = conc > 0 && k >= rounds-conc
 			if k == 0 {
 				g.base = w
